@@ -258,10 +258,13 @@ func (p *process) cleanup(cancel context.CancelFunc) {
 	// Leave the registry and the parent's list of children only now: a parent
 	// that shuts down meanwhile, or another Stop/Poison caller, must still find
 	// us and wait until we have handled Stopped.
-	p.context.engine.Registry.Remove(p.pid)
-	if p.context.parentCtx != nil {
-		p.context.parentCtx.children.Delete(p.pid.ID)
-	}
+	// The parent's list is updated together with the registry, so that an
+	// actor spawned under the same id afterwards is not taken off the list by us.
+	p.context.engine.Registry.removeThen(p.pid, func() {
+		if p.context.parentCtx != nil {
+			p.context.parentCtx.children.Delete(p.pid.ID)
+		}
+	})
 
 	p.context.engine.BroadcastEvent(ActorStoppedEvent{PID: p.pid, Timestamp: time.Now()})
 }
